@@ -44,6 +44,9 @@ def showv(v):
     return T.show(v) if isinstance(v, tuple) else v
 
 
+# rules of sibling properties that decide code on this property's own call path: a version is resolved by reading .tinydiff files, applying them (C04) and extending inner class names (C11) on the root read by tiny_v2::read (C03)
+PREMISES = [("C04", ["R04.1", "R04.2", "R04.4", "R04.5", "R04.6", "R04.7"]), ("C11", ["R11.1", "R11.2", "R11.3"]), ("C03", ["R03.6", "R03.7"])]
+
 def run(F, R, tier):
     with open(SPEC) as f:
         spec = json.load(f)
